@@ -196,6 +196,20 @@ Theorem C11_style_element_finds_svg : lookup_finds style_element_lookup ANS_Svg 
 Proof. exact style_element_finds_svg. Qed.
 Print Assumptions C11_style_element_finds_svg.
 
+(* systemLanguage (rules cut from switch.rs into sys_lang_rules): an entry passes only if it EQUALS a user language or its part
+   before the first `-` does; entries that merely begin with a user language (enm, eng, en_US against en) fail, and a value
+   whose entries all fail makes the element fail its test (a_syslang_ok = false => ignorable). *)
+Theorem C11_syslang_boundary : forall users e,
+  (forall u, In u users -> u <> e) -> (forall u, In u users -> before_dash e <> Some u) -> entry_matches users e = false.
+Proof. exact syslang_boundary. Qed.
+Print Assumptions C11_syslang_boundary.
+
+Theorem C11_syslang_all_fail : forall users entries,
+  (forall e, In e entries -> (forall u, In u users -> u <> e) /\ (forall u, In u users -> before_dash e <> Some u)) ->
+  sys_lang_ok users entries = false.
+Proof. exact syslang_all_fail. Qed.
+Print Assumptions C11_syslang_all_fail.
+
 (* "Invalid transform" covers every non-invertible matrix (427fd1e: has_valid_transform also tests the determinant;
    the conjuncts are cut from the source into valid_ts_tests): such an element has a_ts_valid = false and is ignorable. *)
 Theorem C11_noninvertible_is_invalid : forall t, ts_det t == 0 -> usvg_ts_valid t = false.
@@ -249,6 +263,10 @@ Qed.
 Example C11_ex_singular :
   usvg_ts_valid (from_row 1 2 2 4 300 300) = false /\ usvg_ts_valid (from_row 1 (1#2) (-(1#3)) 2 5 5) = true /\
   usvg_ts_valid (from_row 0 0 0 0 1 1) = false.
+Proof. vm_compute. repeat split. Qed.
+Example C11_ex_syslang :
+  sys_lang_ok ["en"] ["enm"] = false /\ sys_lang_ok ["en"] ["eng"; "en_US"; "e"; "x-en"] = false /\
+  sys_lang_ok ["en"] ["xx"; "en-US"] = true /\ sys_lang_ok ["en"; "de"] ["de"] = true /\ sys_lang_ok ["en-US"] ["en"] = false.
 Proof. vm_compute. repeat split. Qed.
 Example C11_ex_prescan :
   gen_id (fun n => if (n =? 1)%N then "1" else "2") 5 "clipPath" ["clipPath1"; "vf_9"; "x"] 0 = Some ("clipPath2", 2%N).
